@@ -191,8 +191,9 @@ Definition build_vsrs (rs : smap vsroute) (v : vserver) (routes : list (string *
   : list vsroute * list string :=
   let '(l, w) := build_vsrs_k rs v [] routes in (map snd l, w).
 
+(* convertIngressToVSR: the route carries the namespace, the name and the generation of the Ingress *)
 Definition challenge_vsr (i : ingress) : vsroute :=
-  mkVSR (mkMeta (m_ns (i_meta i)) (m_name (i_meta i)) "" 0 0 0) (host0 i) [hd "" (i_paths i)].
+  mkVSR (mkMeta (m_ns (i_meta i)) (m_name (i_meta i)) "" 0 (m_gen (i_meta i)) 0) (host0 i) [hd "" (i_paths i)].
 
 Definition challenge_vsrs (c : cfg) (vss : smap vserver) (is_ : smap ingress) : list vsroute :=
   filter_map (fun kv => let i := snd kv in
